@@ -130,7 +130,12 @@ async def eval_state(st, idx, sd, acc):
         acc.samples.append({"expr": expr, "rc": rc, "fc": fc, "spec_deciding_part": res["index"], "reported": [str(r.requirement_indicator.value), got]})
     if idx % 7 == 0:       # a bare indicator counts as fulfilled and unconditional - whatever was evaluated before
         word = rng.choice(["Muss", "X", "k", "Soll"])
-        b = await evaluate_ahb_expression_tree(await parse_expression_including_unresolved_subexpressions(word))
+        try:
+            b = await evaluate_ahb_expression_tree(await parse_expression_including_unresolved_subexpressions(word))
+        except BaseException as e:  # pylint:disable=broad-except
+            acc.v(f"the bare indicator {word!r} raised {type(e).__name__}: {str(e)[:120]}; a bare indicator is an AHB expression and counts as fulfilled",
+                  {"kind": "bare-after", "expr": word, "after": expr, "rc": rc, "fc": fc})
+            return
         br = b.requirement_constraint_evaluation_result
         acc.c("evaluations")
         if br.requirement_constraints_fulfilled is not True or br.requirement_is_conditional is not False or br.hints is not None \
